@@ -40,17 +40,24 @@ TRUSTED = []
 MANIFEST = dict(
     text="Machine-checked theorems (Coq 8.16.1) about an executable Gallina model over exact rationals of the three pandas pipelines as of "
          "/repo commit d3e6d46 (dominant_bpm: sorted tempo rows, last NOTE, clip/diff/set_axis/groupby-sum/idxmax; scroll_speed: head/tail rows, "
-         "stable sort, ffill/bfill, drop_duplicates, SV table with groupby-last, outer merge; sv_normalize). Proved for ALL inputs of the "
-         "property's domain, in any row order and with tempo/SV rows after the last note: the returned bpm maximises the independently specified "
-         "active time (C19_dominant_is_argmax); sv_normalize returns exactly one SV per tempo point with mult*bpm=ref for every override > 0 or "
-         "the dominant reference (C19_sv_normalize_spec); scroll speed = active bpm/ref at every breakpoint and every tempo point is a breakpoint "
-         "for every chart of a game without SVs (C19_scroll_speed_spec_nosv); the three boolean oracles are sound (the dominant one also "
-         "complete). The same dominant statement is refuted, with concrete witnesses, for the model of the code BEFORE d3e6d46. PARTIAL: for "
-         "charts with an SV list (osu, Quaver) scroll_speed = bpm/ref*SV is proved only for an exhaustive small scope (about 35 000 charts, all "
-         "row orders, SVs before/at/after tempo points and coincident) by evaluating the proven-sound oracle on the model; beyond it that part "
-         "rests on the per-run in-Coq correspondence plus the oracle evaluated on the implementation's outputs.",
-    note="Trusted: Coq kernel+VM, harness generator/serialiser; binary64 rounding measured (rounded stream, rel. tol 1e-9) not proved; pandas' "
-         "unstable sort modelled as stable; 'object' read as note (hold tails not counted). Findings dominant-unsorted-rows / "
+         "stable sort, ffill/bfill, drop_duplicates, SV table with groupby-last, outer merge, ffill/bfill; sv_normalize). Proved for ALL inputs of "
+         "the property's domain (>= 1 tempo point at or before the first note, >= 1 note, no two tempo points at one time, bpm > 0), in any row "
+         "order and with tempo/SV rows after the last note: the returned bpm maximises the independently specified active time "
+         "(C19_dominant_is_argmax); sv_normalize returns exactly one SV per tempo point with mult*bpm=ref for every override > 0 or the dominant "
+         "reference (C19_sv_normalize_spec); scroll_speed, for every chart of every game WITH OR WITHOUT an SV list and every override > 0 or "
+         "none, returns at every breakpoint active bpm/ref * active SV multiplier (an SV lasts until the next SV or tempo point; SVs may "
+         "coincide with a tempo point or with each other -- last in row order counts --, lie before the first tempo point or after the last "
+         "note; tempo and SV rows in any row order) and every tempo point and every SV is a breakpoint (C19_scroll_speed_spec, no side "
+         "condition beyond the domain; C19_scroll_speed_with_spec for any reference value; C19_scroll_speed_spec_nosv is the no-SV instance). "
+         "The three boolean oracles are sound (the dominant one also complete). The same dominant statement is refuted, with concrete witnesses, "
+         "for the model of the code BEFORE d3e6d46. Extra cross-check: C19_scroll_speed_small_scope re-establishes the scroll statement on an "
+         "exhaustive small scope (about 35 000 charts) by evaluating the oracle on the model. No statement of C19 is partial any more. Beyond "
+         "the property text (which does not promise it): on the chart whose SV list is replaced by sv_normalize's result, scroll_speed is 1 "
+         "at every breakpoint (C19_normalize_then_scroll).",
+    note="Trusted: Coq kernel+VM, harness generator/serialiser; the tie model = implementation is the per-run in-Coq correspondence (not a "
+         "proof about pandas); binary64 rounding measured (rounded stream, rel. tol 1e-9) not proved; pandas' unstable sort modelled as stable; "
+         "'object' read as note (hold tails not counted). Inside the domain the bpm frame is proved to have one row per key after "
+         "drop_duplicates, so pd.merge's unspecified order among equal left keys cannot matter there. Findings dominant-unsorted-rows / "
          "dominant-tempo-after-last-object / dominant-sv-after-last-object are fixed in d3e6d46 (reverting it makes the check fire with one "
          "replay per class). All Props theorems are 'Closed under the global context'.",
     technique="Coq proof over executable model + vm_compute correspondence against the implementation",
